@@ -6,7 +6,7 @@ W=/var/tmp/seedmatrix; rm -rf $W; mkdir -p $W
 seeds=${@:-$(ls seeded)}
 one() {
   s=$1; d=$W/$s; mkdir -p $d
-  git -C /repo archive HEAD rl_blox | tar -x -C $d
+  git -C /repo archive HEAD | tar -x -C $d
   if ! (cd $d && patch -p1 -s < /verif/seeded/$s/patch.diff >/dev/null 2>&1); then echo "$s : PATCH-DOES-NOT-APPLY"; rm -rf $d; return; fi
   v=""; u=""
   for i in $(seq -w 1 20); do
